@@ -4,7 +4,7 @@ func (rt *runtime) newErrorObject(name string, message Value, stackFramesToPop i
 	obj := rt.newClassObject(classErrorName)
 	if message.IsDefined() {
 		err := newError(rt, name, stackFramesToPop, "%s", message.string())
-		obj.defineProperty("message", err.messageValue(), 0o101, false)
+		obj.defineProperty("message", stringValue(err.message), 0o101, false)
 		obj.value = err
 	} else {
 		obj.value = newError(rt, name, stackFramesToPop)
